@@ -402,7 +402,14 @@ fn main() {
                     if r.span != (w["kind"] == "span") {
                         return Some(json!({"what": "emitted record has the wrong kind", "detail": {"want": w, "got": format!("{r:?}")}}));
                     }
-                    if !unify_ids(bij, &w["ids"], &r.trace, &r.id, &r.parent) {
+                    // spans: trace, own id, parent; events: trace and innermost span (the statement
+                    // says nothing about a parent on events)
+                    let ok = if r.span {
+                        unify_ids(bij, &w["ids"], &r.trace, &r.id, &r.parent)
+                    } else {
+                        unify_ids(bij, &json!([w["ids"][0], w["ids"][1], 0]), &r.trace, &r.id, &None)
+                    };
+                    if !ok {
                         return Some(json!({"what": "emitted record carries other trace/span/parent ids than the span tree requires",
                             "detail": {"want": w["ids"], "got": format!("{r:?}"), "known": bij.dump()}}));
                     }
